@@ -24,6 +24,11 @@ pub struct BuildPanic {
     pub msg: String,
 }
 
+/// A builder call (or `build()`) that panics *after* the caller caught a rejected registration on
+/// the same builder: nothing is claimed about such a builder (it need not stay usable), so the
+/// case is discarded, not reported. A builder that stays usable is checked like any other.
+pub const AFTER_REJECTED: &str = "[after a rejected registration attempt on this builder]";
+
 pub fn panic_msg(p: &Box<dyn std::any::Any + Send>) -> String {
     if let Some(s) = p.downcast_ref::<String>() {
         s.clone()
@@ -126,6 +131,7 @@ pub fn build_builder(
     }
     let bi = &flat.builders[bid];
     for (i, op) in ops.iter().enumerate() {
+        let after_rejected = ops[..i].iter().any(|o| matches!(o, Op::Rejected { .. }));
         let guard = |r: std::thread::Result<()>| -> Result<(), BuildPanic> {
             r.map_err(|p| {
                 let mut path = bi
@@ -135,7 +141,11 @@ pub fn build_builder(
                 path.push(i);
                 BuildPanic {
                     path,
-                    msg: panic_msg(&p),
+                    msg: if after_rejected {
+                        format!("{} {}", AFTER_REJECTED, panic_msg(&p))
+                    } else {
+                        panic_msg(&p)
+                    },
                 }
             })
         };
@@ -502,8 +512,16 @@ pub fn build_plan(
     let ctx = Ctx::new(flat.clone());
     let b = build_builder(plan, &flat, 0, &ctx, Some(pool.clone()), opts)
         .map_err(|e| format!("builder panicked at op {:?}: {}", e.path, e.msg))?;
+    fn has_rejected(ops: &[Op]) -> bool {
+        ops.iter().any(|o| match o {
+            Op::Rejected { .. } => true,
+            Op::Batch { inner, .. } => has_rejected(inner),
+            _ => false,
+        })
+    }
+    let mark = if has_rejected(plan) { AFTER_REJECTED } else { "" };
     let mut d = catch_unwind(AssertUnwindSafe(|| b.build()))
-        .map_err(|p| format!("build() panicked: {}", panic_msg(&p)))?;
+        .map_err(|p| format!("build() panicked: {} {}", mark, panic_msg(&p)))?;
     let layouts = recover_layouts(plan, &flat, &ctx, &mut d, pool)?;
     Ok(Built {
         flat,
